@@ -382,7 +382,8 @@ func c16R9(c *Ctx, r *Report) {
 		}
 		return true
 	}
-	isTarget := func(v ssa.Value) bool {
+	var isTarget func(v ssa.Value) bool
+	isTarget = func(v ssa.Value) bool {
 		for _, l := range c.Leaves(v) {
 			if p, ok := l.(*ssa.Parameter); ok && p.Name() == "slice" {
 				continue
@@ -402,6 +403,20 @@ func c16R9(c *Ctx, r *Report) {
 			}
 			x, okx := lenOf(bo.X)
 			y, oky := lenOf(bo.Y)
+			// n := copy(slice, compartment) is min(len(slice), len(compartment)): "n < len(compartment)" is the same test
+			copied := func(v ssa.Value) (ssa.Value, bool) {
+				call, ok := v.(*ssa.Call)
+				if !ok || calleeName(&call.Call) != "builtin.copy" || !isCompartment(call.Call.Args[1]) {
+					return nil, false
+				}
+				return call.Call.Args[0], true
+			}
+			if !okx {
+				x, okx = copied(bo.X)
+			}
+			if !oky {
+				y, oky = copied(bo.Y)
+			}
 			if !okx || !oky {
 				return false
 			}
